@@ -15,6 +15,7 @@
 """
 # pylint:disable=protected-access
 import sys
+import threading
 import weakref
 from types import FunctionType
 from types import MethodType
@@ -340,6 +341,9 @@ class InterfaceBase(NameAndModuleComparisonMixin, SpecificationBasePy):
 
 adapter_hooks = _use_c_impl([], 'adapter_hooks')
 
+# Guards the lazy creation of ``Specification._dependents``.
+_dependents_lock = threading.Lock()
+
 
 class Specification(SpecificationBase):
     """Specifications
@@ -384,7 +388,11 @@ class Specification(SpecificationBase):
     @property
     def dependents(self):
         if self._dependents is None:
-            self._dependents = weakref.WeakKeyDictionary()
+            # Only one thread may create this, or the subscriptions
+            # made by the others in the meantime get lost.
+            with _dependents_lock:
+                if self._dependents is None:
+                    self._dependents = weakref.WeakKeyDictionary()
         return self._dependents
 
     def subscribe(self, dependent):
